@@ -240,4 +240,17 @@ class NJobsGrid(Component):
 
 from .c02 import Bundled, Dense, Large  # noqa: E402  (completeness is asserted by these too)
 
-COMPONENTS = [Random(), E1(), E1Wide(), E2(), Dense(), Bundled(), Large(), NJobsGrid()]
+class SelfJoin(Random):
+    """Every case passes the very same DataFrame object as left and right table, joined on the
+    same attribute or on two different string columns of it."""
+    name = "selfjoin"
+
+    def examples(self, tier):
+        return 250 if tier == "quick" else 1000
+
+    def strategy(self, tier):
+        return gen.set_join_case(tier, self_join=True)
+
+
+COMPONENTS = [Random(), E1(), E1Wide(), E2(), Dense(), Bundled(), Large(), NJobsGrid(),
+              SelfJoin()]
